@@ -4,8 +4,9 @@
      - every old node keeps its segment, identifiability, reference text;
      - top-down paths between old nodes are the same in both worlds;
      - a new node is reached from an old one exactly through self -> c. *)
+From Coq Require Import Lia.
 From AV Require Import Base.Bytes Base.Outcome Hash.HashModel Tree.Heap Tree.Ops Tree.Script Tree.IndexProofsW
-  Tree.Index Tree.IndexProofsBase Tree.IndexProofsFrame.
+  Tree.Index Tree.IndexProofsBase Tree.IndexProofsFrame Tree.Refs.
 Open Scope string_scope.
 Open Scope list_scope.
 Open Scope N_scope.
@@ -16,6 +17,24 @@ Proof.
   - split; [intros [->|[]]|intros [->|[]]]; auto.
   - split; [intros [->|H]|intros [->|H]]; auto.
   - rewrite IH by lia. split; [intros [->|[->|H]]|intros [->|[->|H]]]; auto.
+Qed.
+
+Lemma elem_ids_insert_at l k c : (k <= List.length l)%nat ->
+  forall x, In x (elem_ids (insert_at l k (CElem c))) <-> x = c \/ In x (elem_ids l).
+Proof.
+  intros Hk x. rewrite !in_elem_ids, in_insert_at by exact Hk. split; [intros [[= ->]|H]; auto|intros [->|H]; auto].
+Qed.
+Lemma nodup_elem_ids_insert_at l k c : (k <= List.length l)%nat -> ~ In c (elem_ids l) -> NoDup (elem_ids l) ->
+  NoDup (elem_ids (insert_at l k (CElem c))).
+Proof.
+  revert k. induction l as [|z l IH]; intros [|k] Hk Hc Hnd; cbn in *; try lia.
+  - constructor; [intros []|constructor].
+  - constructor; assumption.
+  - destruct z as [y|d]; cbn in *.
+    + apply NoDup_cons_iff in Hnd as (Hy & Hnd). constructor.
+      * intros Hin. apply (elem_ids_insert_at l k c) in Hin; [|lia]. destruct Hin as [->|Hin]; [apply Hc; left; reflexivity|contradiction].
+      * apply IH; [lia|intros H; apply Hc; right; exact H|exact Hnd].
+    + apply IH; [lia|exact Hc|exact Hnd].
 Qed.
 
 Lemma hd_insert_at {A} (l : list A) k x : k <> O -> l <> [] -> hd_error (insert_at l k x) = hd_error l.
@@ -306,5 +325,193 @@ Proof.
   - rewrite (H_old _ _ Hj Hne) in Hj'. injection Hj' as <-. eapply HA; eauto.
 Qed.
 End Side.
+
+(* ====================================================================== a whole subtree is attached
+   TreeFacts, Inv04 and Inv05 of the new world from a description of the new part.  The path index and the referrer
+   lists of w' are described RELATIVE to the specification side of w (PathSet / RefSet of w for the old elements):
+   w itself need not satisfy IndexExact (it may be a virtual world, e.g. the first half of a move). *)
+Lemma below_c_new i : reach T w' c i -> ~ old i.
+Proof.
+  intros (q & Hd). induction Hd as [|p x q Hp IH Hc]; [intros (nj & Hj); congruence|].
+  intros (nx & Hx). destruct (w_nodes w p) as [np|] eqn:Ep; [apply IH; eexists; eauto|].
+  rewrite (H_newkids _ _ Hc Ep) in Hx. discriminate.
+Qed.
+
+Lemma old_parent j nj : w_nodes w j = Some nj -> exists nj', w_nodes w' j = Some nj' /\ n_parent nj' = n_parent nj.
+Proof.
+  intros Hj. destruct (N.eq_dec j self) as [->|Hne].
+  - rewrite H_self in Hj. injection Hj as <-. eexists. split; [exact H_self'|reflexivity].
+  - exists nj. split; [apply H_old; assumption|reflexivity].
+Qed.
+Lemma old_node_back j nj' : old j -> w_nodes w' j = Some nj' ->
+  exists nj, w_nodes w j = Some nj /\ n_parent nj' = n_parent nj /\
+             (j <> self -> nj' = nj) /\ (j = self -> nj' = set_content n (insert_at (n_content n) k (CElem c))).
+Proof.
+  intros (nj & Hj) Hj'. exists nj. split; [exact Hj|]. destruct (N.eq_dec j self) as [->|Hne].
+  - rewrite H_self' in Hj'. injection Hj' as <-. rewrite H_self in Hj. injection Hj as <-. split; [reflexivity|]. split; [congruence|auto].
+  - rewrite (H_old _ _ Hj Hne) in Hj'. injection Hj' as <-. split; [reflexivity|]. split; [auto|congruence].
+Qed.
+Lemma pdepth_old j h : pdepth w j h -> pdepth w' j h.
+Proof.
+  induction 1 as [i ni Hi Ht|i ni p h Hi Hp Hd IH]; destruct (old_parent i ni Hi) as (ni' & Hi' & Hpar).
+  - eapply pd_top; [exact Hi'|]. rewrite Hpar. exact Ht.
+  - eapply pd_step; [exact Hi'|rewrite Hpar; exact Hp|exact IH].
+Qed.
+Lemma mreach_is_old mm i : MReach T w mm i -> old i.
+Proof. intros H. destruct (mreach_alloc T _ _ _ HF H) as (ni & Hi). eexists; eauto. Qed.
+Lemma mreach_new_fwd mm i : MReach T w mm self -> reach T w' c i -> MReach T w' mm i.
+Proof.
+  intros (x & Hx & (q1 & H1)) (q2 & H2). destruct (model_fwd _ _ Hx) as (x' & Hx' & Hr). exists x'. split; [exact Hx'|].
+  rewrite Hr. eexists. apply dpath_new_fwd; [eapply root_old; eauto|exact H1|exact H2].
+Qed.
+
+Section Subtree.
+Hypothesis H_next : w_next w <= w_next w'.
+Hypothesis H_cnode : exists cn, w_nodes w' c = Some cn /\ n_parent cn = PElem self.
+Hypothesis H_newtree : forall j nj', ~ old j -> w_nodes w' j = Some nj' ->
+  NoDup (elem_ids (n_content nj')) /\ j < w_next w' /\ reach T w' c j /\
+  (forall y, In (CElem y) (n_content nj') -> exists yn, w_nodes w' y = Some yn /\ n_parent yn = PElem j).
+
+Lemma new_pdepth j : reach T w' c j -> exists h, pdepth w' j h.
+Proof.
+  intros (q & Hd). induction Hd as [|p y q Hp IH Hc].
+  - destruct H_cnode as (cn & Hcn & Hpar). destruct (tf_depth _ HF _ _ H_self) as (h & Hh).
+    exists (S h). eapply pd_step; [exact Hcn|exact Hpar|apply pdepth_old; exact Hh].
+  - destruct IH as (h & Hh). destruct Hc as (np' & Hp' & Hy).
+    assert (Hpn : ~ old p) by (apply below_c_new; exists q; exact Hp).
+    destruct (H_newtree p np' Hpn Hp') as (_ & _ & _ & Hk). destruct (Hk y Hy) as (yn & Hyn & Hpar).
+    exists (S h). eapply pd_step; eauto.
+Qed.
+
+Theorem attach_treefacts : TreeFacts w'.
+Proof.
+  constructor.
+  - (* tf_up *)
+    intros p y Hc. destruct (w_nodes w p) as [np|] eqn:Ep.
+    + assert (Hpo : old p) by (eexists; eauto). destruct (child_old_bwd _ _ Hpo Hc) as [Hc0|(-> & ->)]; [|exact H_cnode].
+      destruct (tf_up _ HF _ _ Hc0) as (yn & Hyn & Hpar). destruct (old_parent y yn Hyn) as (yn' & Hyn' & Hpar').
+      exists yn'. split; [exact Hyn'|congruence].
+    + destruct Hc as (np' & Hp' & Hy). assert (Hpn : ~ old p) by (intros (? & ?); congruence).
+      destruct (H_newtree p np' Hpn Hp') as (_ & _ & _ & Hk). exact (Hk y Hy).
+  - (* tf_nodup *)
+    intros p np' Hp'. destruct (w_nodes w p) as [np|] eqn:Ep.
+    + destruct (old_node_back p np' (ex_intro _ np Ep) Hp') as (np0 & Hp0 & _ & Hne & Heq).
+      destruct (N.eq_dec p self) as [->|Hps].
+      * rewrite (Heq eq_refl). cbn [set_content n_content]. apply nodup_elem_ids_insert_at; [exact H_k| |eapply tf_nodup; eauto].
+        intros Hin. apply in_elem_ids in Hin. assert (Hcc : child_of w self c) by (exists n; auto).
+        apply (old_ne_c c (child_of_old _ _ Hcc)). reflexivity.
+      * rewrite (Hne Hps). eapply tf_nodup; eauto.
+    + assert (Hpn : ~ old p) by (intros (? & ?); congruence). destruct (H_newtree p np' Hpn Hp') as (Hnd & _). exact Hnd.
+  - (* tf_down *)
+    intros y yn' p Hy Hpar. destruct (w_nodes w y) as [yn|] eqn:Ey.
+    + destruct (old_node_back y yn' (ex_intro _ yn Ey) Hy) as (yn0 & Hy0 & Hpar0 & _). apply child_old_fwd.
+      eapply tf_down; eauto. congruence.
+    + assert (Hyn : ~ old y) by (intros (? & ?); congruence). destruct (H_newtree y yn' Hyn Hy) as (_ & _ & (q & Hd) & _).
+      destruct (dpath_alloc T _ _ _ _ Hd) as [->|(p2 & Hc2)].
+      * destruct H_cnode as (cn & Hcn & Hcp). assert (p = self) by congruence. subst p.
+        eexists. split; [exact H_self'|]. cbn. apply in_insert_at; auto.
+      * assert (p2 = p); [|subst p2; exact Hc2].
+        destruct (w_nodes w p2) as [np2|] eqn:Ep2.
+        -- destruct (child_old_bwd _ _ (ex_intro _ np2 Ep2) Hc2) as [Hc0|(-> & ->)].
+           ++ exfalso. apply Hyn. eapply child_of_old; eauto.
+           ++ destruct H_cnode as (cn & Hcn & Hcp). congruence.
+        -- destruct Hc2 as (np2' & Hp2' & Hin). assert (Hp2n : ~ old p2) by (intros (? & ?); congruence).
+           destruct (H_newtree p2 np2' Hp2n Hp2') as (_ & _ & _ & Hk). destruct (Hk y Hin) as (yn2 & Hyn2 & Hpar2). congruence.
+  - (* tf_roots *)
+    intros mm x' Hx'. destruct (model_bwd _ _ Hx') as (x & Hx & Hr). destruct (tf_roots _ HF _ _ Hx) as (nr & Hnr & Hpar).
+    destruct (old_parent _ nr Hnr) as (nr' & Hnr' & Hpar'). exists nr'. rewrite Hr. split; [exact Hnr'|congruence].
+  - (* tf_pmodel *)
+    intros i ni' mm Hi Hpar. destruct (w_nodes w i) as [ni|] eqn:Ei.
+    + destruct (old_node_back i ni' (ex_intro _ ni Ei) Hi) as (ni0 & Hi0 & Hpar0 & _).
+      destruct (tf_pmodel _ HF i ni0 mm Hi0) as (x & Hx & Hr); [congruence|].
+      destruct (model_fwd _ _ Hx) as (x' & Hx' & Hr'). exists x'. split; [exact Hx'|congruence].
+    + exfalso. assert (Hin : ~ old i) by (intros (? & ?); congruence).
+      destruct (H_newtree i ni' Hin Hi) as (_ & _ & (q & Hd) & _).
+      destruct (dpath_alloc T _ _ _ _ Hd) as [->|(p2 & (np2' & Hp2' & Hin2))].
+      * destruct H_cnode as (cn & Hcn & Hcp). congruence.
+      * destruct (w_nodes w p2) as [np2|] eqn:Ep2.
+        -- destruct (child_old_bwd p2 i (ex_intro _ np2 Ep2) (ex_intro _ np2' (conj Hp2' Hin2))) as [Hc0|(-> & ->)].
+           ++ apply Hin. eapply child_of_old; eauto.
+           ++ destruct H_cnode as (cn & Hcn & Hcp). congruence.
+        -- assert (Hp2n : ~ old p2) by (intros (? & ?); congruence).
+           destruct (H_newtree p2 np2' Hp2n Hp2') as (_ & _ & _ & Hk). destruct (Hk i Hin2) as (yn2 & Hyn2 & Hpar2). congruence.
+  - (* tf_depth *)
+    intros i ni' Hi. destruct (w_nodes w i) as [ni|] eqn:Ei.
+    + destruct (tf_depth _ HF _ _ Ei) as (h & Hh). exists h. apply pdepth_old. exact Hh.
+    + assert (Hin : ~ old i) by (intros (? & ?); congruence). destruct (H_newtree i ni' Hin Hi) as (_ & _ & Hr & _).
+      apply new_pdepth. exact Hr.
+  - (* tf_alloc *)
+    intros i ni' Hi. destruct (w_nodes w i) as [ni|] eqn:Ei.
+    + pose proof (tf_alloc _ HF _ _ Ei). lia.
+    + assert (Hin : ~ old i) by (intros (? & ?); congruence). destruct (H_newtree i ni' Hin Hi) as (_ & Hlt & _). exact Hlt.
+Qed.
+End Subtree.
+
+Section SubtreeInv.
+Variable check_fn : N -> list N -> res bool.
+Variables (mm : N) (ps : list N).
+Hypothesis H_ps : SpecPath T w mm self ps.
+Hypothesis HS1 : ShortTyped T check_fn w.
+Hypothesis HS2 : SlashFree T w.
+Hypothesis HS3 : AllNamed T w.
+Hypothesis HS4 : CharsLeaf T w.
+Hypothesis H_mode : content_mode T (n_type n) <> Val MCharacters.
+Hypothesis H_newside : forall j nj', ~ old j -> w_nodes w' j = Some nj' ->
+  (n_name nj' = SHORTN T -> short_type T check_fn (n_type nj')) /\
+  (forall s, n_name nj' = SHORTN T -> cdata_of T nj' = Some (DString s) -> ~ In 47 s) /\
+  (identifiable_n T w' nj' = true -> item_name_n T w' nj' <> None) /\
+  (content_mode T (n_type nj') = Val MCharacters -> chars_content (n_content nj')).
+Hypothesis H_exold : forall m2 x2', model_at w' m2 = Some x2' -> forall p i, old i ->
+  (assoc_get p (m_idents x2') = Some i <-> PathSet T w m2 p i).
+Hypothesis H_exnew : forall m2 x2', model_at w' m2 = Some x2' -> forall p i, ~ old i ->
+  (assoc_get p (m_idents x2') = Some i <->
+   m2 = mm /\ exists q2, dpath T w' c i q2 /\ identifiable T w' i = true /\ p = ps ++ seg T w' c ++ q2).
+Hypothesis H_nd : forall m2 x2', model_at w' m2 = Some x2' -> NoDupKeys (m_idents x2').
+
+Theorem attach_inv04 : Inv04 T check_fn w'.
+Proof.
+  constructor.
+  - intros j nj' Hj Hs. destruct (w_nodes w j) as [nj|] eqn:Ej.
+    + eapply shorttyped_old; eauto. eexists; eauto.
+    + assert (Hjn : ~ old j) by (intros (? & ?); congruence). destruct (H_newside j nj' Hjn Hj) as (H1 & _). auto.
+  - intros j nj' s Hj Hs Hcd. destruct (w_nodes w j) as [nj|] eqn:Ej.
+    + eapply slashfree_old; eauto. eexists; eauto.
+    + assert (Hjn : ~ old j) by (intros (? & ?); congruence). destruct (H_newside j nj' Hjn Hj) as (_ & H2 & _). eauto.
+  - intros j nj' Hj Hid. destruct (w_nodes w j) as [nj|] eqn:Ej.
+    + eapply allnamed_old; eauto. eexists; eauto.
+    + assert (Hjn : ~ old j) by (intros (? & ?); congruence). destruct (H_newside j nj' Hjn Hj) as (_ & _ & H3 & _). auto.
+  - intros j nj' Hj Hm. destruct (w_nodes w j) as [nj|] eqn:Ej.
+    + eapply charsleaf_old; eauto. eexists; eauto.
+    + assert (Hjn : ~ old j) by (intros (? & ?); congruence). destruct (H_newside j nj' Hjn Hj) as (_ & _ & _ & H4). auto.
+  - intros m2 x2' Hx2' p i. destruct (w_nodes w i) as [ni|] eqn:Ei.
+    + assert (Hio : old i) by (eexists; eauto). rewrite (H_exold m2 x2' Hx2' p i Hio). symmetry. apply pathset_old. exact Hio.
+    + assert (Hin : ~ old i) by (intros (? & ?); congruence). rewrite (H_exnew m2 x2' Hx2' p i Hin). split.
+      * intros (-> & q2 & Hd & Hid & ->). pose proof (specpath_new_fwd mm ps i q2 H_ps Hd) as Hsp.
+        split; [eapply specpath_mreach; eauto|]. split; [exact Hid|exact Hsp].
+      * intros (P1 & P2 & P3). destruct (specpath_new _ _ _ P3 Hin) as (ps' & q2 & Hs' & Hd & ->).
+        destruct (specpath_fun T _ _ _ _ _ _ HF Hs' H_ps) as (-> & ->). split; [reflexivity|]. exists q2. auto.
+  - intros m2 x2' Hx2'. eapply H_nd; eauto.
+Qed.
+
+Hypothesis H_selfref : isref T (n_type n) = false.
+Hypothesis H_orold : forall m2 x2', model_at w' m2 = Some x2' -> forall p r, old r ->
+  (In r (origins_of x2' p) <-> RefSet T w m2 p r).
+Hypothesis H_ornew : forall m2 x2', model_at w' m2 = Some x2' -> forall p r, ~ old r ->
+  (In r (origins_of x2' p) <-> m2 = mm /\ reach T w' c r /\ ref_text T w' r = Some p).
+Hypothesis H_ornd : forall m2 x2' p, model_at w' m2 = Some x2' -> NoDup (origins_of x2' p).
+Hypothesis H_ortidy : forall m2, OriginsTidy w' m2.
+
+Theorem attach_inv05 : Inv05 T w'.
+Proof.
+  constructor; [|exact H_ortidy].
+  intros m2 x2' Hx2' p. split; [eapply H_ornd; eauto|]. intros r. destruct (w_nodes w r) as [nr|] eqn:Er.
+  - assert (Hro : old r) by (eexists; eauto). rewrite (H_orold m2 x2' Hx2' p r Hro). symmetry. apply refset_old; [exact Hro|].
+    intros _. exact H_selfref.
+  - assert (Hrn : ~ old r) by (intros (? & ?); congruence). rewrite (H_ornew m2 x2' Hx2' p r Hrn). unfold RefSet. split.
+    + intros (-> & Hr & Ht). split; [|exact Ht]. apply mreach_new_fwd; [eapply specpath_mreach; eauto|exact Hr].
+    + intros (Hm & Ht). destruct (mreach_new _ _ Hm Hrn) as (Hms & Hr).
+      destruct (mreach_specpath T _ _ _ Hms) as (ps' & Hs'). destruct (specpath_fun T _ _ _ _ _ _ HF Hs' H_ps) as (-> & _). auto.
+Qed.
+End SubtreeInv.
 
 End Attach.
